@@ -27,7 +27,8 @@ EXPLANATION = (
     " ADDED LATER: C05.R8 (who may write the scoper's state, the constant-initialiser context included) is shared."
     " ROUNDS 5-6: R6 has no exception for Pointer/View any more (named lengths behind them are ordering dependencies: found_named_lengths, T2) and requires the constant named by E416 to be part of the cycle."
     " ROUND 7: C10.R2-MEMBER-PADDING is shared (E380 is decided from that size model)."
-    " ROUND 8: R7-WELLFORMED-EVERYWHERE: parse_inner_type is called only by itself and by parse_wellformed_type (7 callers counted): no type position of the parser skips the well-formedness check.")
+    " ROUND 8: R7-WELLFORMED-EVERYWHERE: parse_inner_type is called only by itself and by parse_wellformed_type (7 callers counted): no type position of the parser skips the well-formedness check."
+    " ROUND 9: C10.R1-SIZE-AGREEMENT is shared: the member sizes E380 adds up are the sizes of the LLVM types.")
 
 VR = "alpha::scoper::variable_references::"
 
